@@ -30,7 +30,56 @@ const (
 	fStaleEnd    = "C18-instant-range-function-drops-series-ending-stale"
 	fHoltInf     = "C18-holt-winters-infinite-sample-nan"
 	fAbsentDup   = "C18-absent-label-kept-despite-second-matcher"
+	fMinMaxInit  = "C18-min-max-aggregation-sentinel-start-value"
 )
+
+// hasMinMaxAgg: the expression contains a min / max aggregation operator
+func hasMinMaxAgg(expr string) bool {
+	e, err := parser.ParseExpr(expr)
+	if err != nil {
+		return false
+	}
+	found := false
+	parser.Inspect(e, func(n parser.Node, _ []parser.Node) error {
+		if a, ok := n.(*parser.AggregateExpr); ok && (a.Op == parser.MAX || a.Op == parser.MIN) {
+			found = true
+		}
+		return nil
+	})
+	return found
+}
+
+// sentinelInsteadOf: same label sets and timestamps; values agree except where the server answers +-MaxFloat64 and
+// upstream NaN or an infinity (at least once)
+func sentinelInsteadOf(up, sv result) bool {
+	if up.Kind != sv.Kind || sv.Err != "" || len(up.Series) != len(sv.Series) {
+		return false
+	}
+	um := map[string]rseries{}
+	for _, s := range up.Series {
+		um[labelKey(s.Labels)] = s
+	}
+	hit := false
+	for _, s := range sv.Series {
+		u, ok := um[labelKey(s.Labels)]
+		if !ok || len(u.Pts) != len(s.Pts) {
+			return false
+		}
+		for i, p := range s.Pts {
+			if p.T != u.Pts[i].T {
+				return false
+			}
+			if feq(p.V, u.Pts[i].V) {
+				continue
+			}
+			if math.Abs(p.V) != math.MaxFloat64 || !(math.IsNaN(u.Pts[i].V) || math.IsInf(u.Pts[i].V, 0)) {
+				return false
+			}
+			hit = true
+		}
+	}
+	return hit
+}
 
 // absentDupRewrite: for selectors below absent_over_time / absent that carry, for some label, exactly one equality
 // matcher plus further non-equality matchers: today's code derives the answer's labels from the equality matchers
@@ -354,7 +403,7 @@ func extraPointsOnly(up, sv result) bool {
 			nup++
 		}
 	}
-	return nsv > nup
+	return nup > 0 && nsv > nup // a vacuous 'superset' of an empty answer explains nothing
 }
 
 const nosuchMetric = "c18_metric_without_samples"
@@ -410,8 +459,8 @@ func absentNegRewrite(expr string, ds *dataset) (string, bool) {
 		sers := seriesOf(ds, vs)
 		neg := false
 		for _, m := range vs.LabelMatchers {
-			if m.Name == "__name__" || m.Value == "" || !(m.Type == labels.MatchNotEqual || m.Type == labels.MatchNotRegexp) || !m.Matches("") {
-				continue
+			if m.Name == "__name__" || m.Value == "" || !m.Matches("") {
+				continue // (matchers with an empty value are dropped by the transpiler: another finding)
 			}
 			carried := false
 			for _, ls := range sers {
@@ -777,12 +826,17 @@ func explainWith(ds *dataset, e *exprCase, mode string, start, lastStep, step in
 		ex.Rules = addRule(ex.Rules, fResetsZero)
 		return true, ex, nregex
 	}
+	if hasMinMaxAgg(e.Expr) && cmpResults(up, sv) != "" && sentinelInsteadOf(up, sv) {
+		// min / max start from +-MaxFloat64 instead of the group's first value
+		ex.Rules = addRule(ex.Rules, fMinMaxInit)
+		return true, ex, nregex
+	}
 	if strings.Contains(e.Expr, "holt_winters(") && hasInfSample(ds) && cmpResults(up, sv) != "" && nanInsteadOf(up, sv) {
 		// CalcHoltWinters answers NaN as soon as the window holds an infinite value; upstream computes with it
 		ex.Rules = addRule(ex.Rules, fHoltInf)
 		return true, ex, nregex
 	}
-	if mode == "range" && hasVectorVectorBinop(e.Expr) && cmpResults(up, sv) != "" && extraPointsOnly(up, sv) {
+	if allowResets && mode == "range" && hasVectorVectorBinop(e.Expr) && cmpResults(up, sv) != "" && extraPointsOnly(up, sv) {
 		// the operator walks past the end of the exhausted series' rows into the next series of the chunk
 		ex.Rules = addRule(ex.Rules, fBinopNext)
 		return true, ex, nregex
